@@ -49,6 +49,10 @@ def setup_scratch():
     open(f"{SCRATCH}/sim/Cargo.toml", "w").write(toml)
     os.makedirs(f"{SCRATCH}/verif")
     shutil.copy(os.path.join(VERIF, "known_findings.json"), f"{SCRATCH}/verif/")
+    # the Miri-scheduled connection-id program (second half of the C19 check), against the scratch copy
+    shutil.copytree(os.path.join(VERIF, "miri-ids"), f"{SCRATCH}/verif/miri-ids", ignore=shutil.ignore_patterns("target"))
+    t = open(f"{SCRATCH}/verif/miri-ids/Cargo.toml").read().replace('"/repo/', f'"{SCRATCH}/repo/')
+    open(f"{SCRATCH}/verif/miri-ids/Cargo.toml", "w").write(t)
     # warm the build (unmutated) so that each mutant only rebuilds zlink crates + zsim
     r = sh("cargo build --release --offline", cwd=f"{SCRATCH}/sim")
     assert r.returncode == 0, r.stderr[-3000:]
@@ -56,7 +60,11 @@ def setup_scratch():
 
 def run_check(pid, tier, extra=()):
     env = dict(ENV, VERIF_DIR=f"{SCRATCH}/verif")
-    return sh([f"{SCRATCH}/sim/target/release/zsim", pid, tier, "--no-evidence", *extra], env=env)
+    r = sh([f"{SCRATCH}/sim/target/release/zsim", pid, tier, "--no-evidence", *extra], env=env)
+    if pid == "C19" and r.returncode == 0:
+        # same order as ./check C19: the simulator first, then the ids under Miri's schedules
+        r = sh(["python3", os.path.join(VERIF, "tools", "ids_miri.py"), tier, "--no-evidence"], env=env)
+    return r
 
 
 def mutants(args):
@@ -98,9 +106,12 @@ def mutants(args):
                     c = run_check(pid, tier)
                     m = re.search(r"VIOLATION property=(\S+) replay=(\S+)", c.stdout)
                     if c.returncode == 1 and m:
-                        rp = run_check(pid, "--replay", [m.group(2)]) if False else sh(
-                            [f"{SCRATCH}/sim/target/release/zsim", pid, "--replay", m.group(2)],
-                            env=dict(ENV, VERIF_DIR=f"{SCRATCH}/verif"))
+                        if "C19-ids-" in m.group(2):
+                            rp = sh(["python3", os.path.join(VERIF, "tools", "ids_miri.py"), "--replay", m.group(2)],
+                                    env=dict(ENV, VERIF_DIR=f"{SCRATCH}/verif"))
+                        else:
+                            rp = sh([f"{SCRATCH}/sim/target/release/zsim", pid, "--replay", m.group(2)],
+                                    env=dict(ENV, VERIF_DIR=f"{SCRATCH}/verif"))
                         ok = rp.returncode == 1 and "exact reproduction of recorded history: yes" in rp.stdout
                         cls = re.search(r"violation class=(\S+)", c.stdout)
                         verdicts.append(f"{pid}:DETECTED({cls.group(1) if cls else '?'}{'' if ok else ', REPLAY-MISMATCH'})")
